@@ -201,13 +201,13 @@ def remainingInputBlockSize (s : St) : Nat :=
   let bs := s.blockSize
   if delta ≥ bs then 0 else bs - delta
 
+/-- the value `update_size_hint` stores: `min(delta + tail, 2^30)` with its overflow guards -/
+def sizeHintTotal (delta availIn : Nat) : Nat :=
+  if delta ≥ 1073741824 ∨ availIn ≥ 1073741824 ∨ (delta + availIn) % two64 ≥ 1073741824 then 1073741824 else delta + availIn
+
 /-- `update_size_hint` -/
 def updateSizeHint (s : St) (availIn : Nat) : St :=
-  if s.params.sizeHint = 0 then
-    let delta := s.unprocessed
-    let limit := 2 ^ 30
-    let total := if delta ≥ limit ∨ availIn ≥ limit ∨ (delta + availIn) % two64 ≥ limit then limit else delta + availIn
-    { s with params := { s.params with sizeHint := total } }
+  if s.params.sizeHint = 0 then { s with params := { s.params with sizeHint := sizeHintTotal s.unprocessed availIn } }
   else s
 
 /-! ### ring buffer write path (indices and slice bounds only) -/
@@ -257,7 +257,7 @@ def ringWrite (rb : Ring) (n avail : Nat) : Out Ring :=
       else if 2 + rb.size - 1 ≥ rb.allocLen ∨ rb.size < 2 then .panic   -- the two prefix-mirror reads
       else
         let pos := (rb.pos + n) % two32
-        let pos := if pos > 2 ^ 30 then (pos % 2 ^ 30) ||| 2 ^ 30 else pos
+        let pos := if pos > 1073741824 then (pos % 1073741824) ||| 1073741824 else pos
         .ok { rb with pos := pos }
     | o => o
 
@@ -580,7 +580,7 @@ def processMetadataLoop (o : Oracle) : Nat → St → Io → Out (St × Io × Bo
 
 /-- `process_metadata` -/
 def processMetadata (o : Oracle) (fuel : Nat) (s : St) (io : Io) : Out (St × Io × Bool) :=
-  if io.availIn > 2 ^ 24 then .ok (s, io, false) else
+  if io.availIn > 16777216 then .ok (s, io, false) else
   let s := if s.streamState = .processing then
       { s with remainingMetadata := io.availIn % two32, streamState := .metadataHead } else s
   if s.streamState ≠ .metadataHead ∧ s.streamState ≠ .metadataBody then .ok (s, io, false)
